@@ -12,6 +12,7 @@ and bind) equals the state obtained by parsing the same tree truncated just befo
 error names every level of the include chain with the right line; provenance comments attribute
 every binding to the file:line of the statement (or block member) that last set it.
 """
+import json
 import os
 import re
 import shutil
@@ -642,6 +643,13 @@ def strategy(draw):
   files = []
   for i in range(n):
     files.append({'stmts': draw(st.lists(_stmt(), min_size=1, max_size=5))})
+  binds = [s_ for f in files for s_ in f['stmts'] if s_[0] == 'bind']
+  if binds and draw(st.integers(0, 2)) == 0:
+    # the same key bound again to an equal value elsewhere (an override file repeating the base
+    # config): the statement that last set it is the later one
+    dup = json.loads(json.dumps(draw(st.sampled_from(binds))))
+    target = draw(st.sampled_from(files))['stmts']
+    target.insert(draw(st.integers(0, len(target))), dup)
   locked = draw(st.integers(0, 9)) == 0
   dyn = n > 1 and not locked and draw(st.integers(0, 3)) == 0
   if dyn:
